@@ -97,7 +97,16 @@ func (pk *PkgCtx) axiomsInto(st *State, upto *Lemma, uses []string) []string {
 		}
 		delete(want, l.Name)
 		env := &SpecEnv{st: st, old: st, vars: map[string]Val{}}
-		t := env.boolTerm(l.Cl.Expr)
+		var t Term
+		if l.Induct != "" {
+			// proved by induction: usable for every n >= 0
+			bn := st.c.boundName(l.Induct)
+			env.vars[l.Induct] = Scalar{Term{bn, SInt}, types.Typ[types.Int]}
+			body := env.boolTerm(l.Cl.Expr)
+			t = mkForall(fmt.Sprintf("(%s Int)", bn), tImplies(tAnd(tLe(intLit(0), Term{bn, SInt}), tLe(Term{bn, SInt}, bigLit(pow2(63)))), body))
+		} else {
+			t = env.boolTerm(l.Cl.Expr)
+		}
 		if env.err != nil {
 			errs = append(errs, fmt.Sprintf("%s: %s: %v", l.Cl.Line, l.Name, env.err))
 			continue
@@ -178,17 +187,44 @@ func (pk *PkgCtx) verifyLemmas() *FuncReport {
 		c := &VCtx{pkg: pk}
 		st := &State{c: c, objs: map[ObjID]Val{}, regs: map[ssa.Value]Val{}}
 		errs := pk.axiomsInto(st, l, l.Uses)
-		env := &SpecEnv{st: st, old: st, vars: map[string]Val{}}
-		t := env.boolTerm(l.Cl.Expr)
-		if env.err != nil {
-			errs = append(errs, fmt.Sprintf("%s: %v", l.Cl.Line, env.err))
-		}
 		o := &Obligation{Name: "lemma " + l.Name, Func: "lemmas", Kind: "lemma", Prop: l.Prop, Text: l.Cl.Text, Where: l.Cl.Line}
+		if l.Induct != "" {
+			// base: P(0); step: P(n) => P(n+1) for a fresh n >= 0
+			intT := types.Typ[types.Int]
+			env := &SpecEnv{st: st, old: st, vars: map[string]Val{l.Induct: Scalar{intLit(0), intT}}}
+			base := env.boolTerm(l.Cl.Expr)
+			n := c.fresh(l.Induct, SInt)
+			env2 := &SpecEnv{st: st, old: st, vars: map[string]Val{l.Induct: Scalar{n, intT}}}
+			hyp := env2.boolTerm(l.Cl.Expr)
+			env3 := &SpecEnv{st: st, old: st, vars: map[string]Val{l.Induct: Scalar{tAdd(n, intLit(1)), intT}}}
+			concl := env3.boolTerm(l.Cl.Expr)
+			for _, e := range []*SpecEnv{env, env2, env3} {
+				if e.err != nil {
+					errs = append(errs, fmt.Sprintf("%s: %v", l.Cl.Line, e.err))
+				}
+			}
+			if len(errs) == 0 {
+				o.Text = "by induction on " + l.Induct + ": " + o.Text
+				o.Instances = append(o.Instances, &Instance{Assumps: st.pc, Goal: base, Decls: c.decls, Path: "base"})
+				// finite induction over 0 <= n <= 2^63 (the range of int plus one): the step may assume n < 2^63
+				stepAss := append(append([]Term(nil), st.pc...), tLe(intLit(0), n), tLt(n, bigLit(pow2(63))), hyp)
+				for _, g := range splitGoal(concl, 6) {
+					o.Instances = append(o.Instances, &Instance{Assumps: stepAss, Goal: g, Decls: c.decls, Path: "step"})
+				}
+			}
+		} else {
+			env := &SpecEnv{st: st, old: st, vars: map[string]Val{}}
+			t := env.boolTerm(l.Cl.Expr)
+			if env.err != nil {
+				errs = append(errs, fmt.Sprintf("%s: %v", l.Cl.Line, env.err))
+			}
+			if len(errs) == 0 {
+				o.Instances = []*Instance{{Assumps: st.pc, Goal: t, Decls: c.decls}}
+			}
+		}
 		if len(errs) > 0 {
 			o.Instances = []*Instance{{Verdict: "unknown", Output: strings.Join(errs, "; ")}}
 			rep.SpecErrs = append(rep.SpecErrs, errs...)
-		} else {
-			o.Instances = []*Instance{{Assumps: st.pc, Goal: t, Decls: c.decls}}
 		}
 		rep.Obls = append(rep.Obls, o)
 	}
